@@ -148,6 +148,11 @@ func (c *Collector) Sample(v any) {
 	}
 }
 
+// IsKnown reports whether a violation matches a listed known finding (so that a sweep need not stop at it).
+func (c *Collector) IsKnown(v *Violation) bool {
+	return v != nil && c.Known != nil && c.Known.Match(v) != nil
+}
+
 func (c *Collector) WantSample() bool { return len(c.Samples) < c.maxSamples }
 
 func (c *Collector) Note(format string, args ...any) {
